@@ -25,6 +25,7 @@ import (
 	"go/ast"
 	"go/token"
 	"reflect"
+	"sort"
 
 	"github.com/uber-go/gopatch/internal/goast"
 	"github.com/uber-go/gopatch/internal/pgo/augment"
@@ -156,7 +157,20 @@ func (a *augmenter) Apply(cursor *astutil.Cursor) bool {
 // Err returns an error if this augmenter encountered any errors or if any of
 // the augmentations were unused.
 func (a *augmenter) Err() error {
+	// Report the leftovers in the order they appear in the patch: iterating
+	// over the map directly would order the messages differently from one
+	// run to the next.
+	unused := make([]augment.Augmentation, 0, len(a.augs))
 	for _, aug := range a.augs {
+		unused = append(unused, aug)
+	}
+	sort.Slice(unused, func(i, j int) bool {
+		if unused[i].Start() != unused[j].Start() {
+			return unused[i].Start() < unused[j].Start()
+		}
+		return unused[i].End() < unused[j].End()
+	})
+	for _, aug := range unused {
 		a.errf(a.file.Pos(aug.Start()), "unused augmentation %T", aug)
 	}
 	return multierr.Combine(a.errors...)
